@@ -492,6 +492,41 @@ func (f *Flow) Run() *FlowResult {
 	return f.res
 }
 
+// threadPhi: block b ends in an If on (a negation of) a bool phi of b itself
+// that has constant incoming values: the branch taken is then known per
+// predecessor (a flag set on some paths and tested after the merge).
+func threadPhi(b *ssa.BasicBlock) (*ssa.Phi, bool) {
+	if len(b.Instrs) == 0 {
+		return nil, false
+	}
+	iff, ok := b.Instrs[len(b.Instrs)-1].(*ssa.If)
+	if !ok {
+		return nil, false
+	}
+	c, neg := iff.Cond, false
+	for {
+		u, ok := c.(*ssa.UnOp)
+		if !ok || u.Op != token.NOT {
+			break
+		}
+		c, neg = u.X, !neg
+	}
+	phi, ok := c.(*ssa.Phi)
+	if !ok || phi.Block() != b {
+		return nil, false
+	}
+	n := 0
+	for _, e := range phi.Edges {
+		if k, ok := e.(*ssa.Const); ok && k.Value != nil && k.Value.Kind() == constant.Bool {
+			n++
+		}
+	}
+	if n == 0 {
+		return nil, false
+	}
+	return phi, neg
+}
+
 // runFn analyses fn from the given entry states and returns the join of the
 // states at its normal returns.
 func (f *Flow) runFn(fn *ssa.Function, entry StateSet, depth int) StateSet {
@@ -500,14 +535,11 @@ func (f *Flow) runFn(fn *ssa.Function, entry StateSet, depth int) StateSet {
 		return entry
 	}
 	in := map[*ssa.BasicBlock]StateSet{fn.Blocks[0]: entry}
+	inBy := map[*ssa.BasicBlock]map[int]StateSet{} // per predecessor, for blocks that branch on a constant-fed phi
 	work := []*ssa.BasicBlock{fn.Blocks[0]}
 	inWork := map[*ssa.BasicBlock]bool{fn.Blocks[0]: true}
 	var exit StateSet
-	for len(work) > 0 {
-		b := work[0]
-		work = work[1:]
-		inWork[b] = false
-		cur := in[b]
+	runInstrs := func(b *ssa.BasicBlock, cur StateSet) StateSet {
 		for _, ins := range b.Instrs {
 			res.Before[ins] |= f.strip(cur)
 			var nxt StateSet
@@ -569,11 +601,17 @@ func (f *Flow) runFn(fn *ssa.Function, entry StateSet, depth int) StateSet {
 				}
 			}
 		}
+		return cur
+	}
+	propagate := func(b *ssa.BasicBlock, cur StateSet, only int) {
 		var iff *ssa.If
 		if len(b.Instrs) > 0 {
 			iff, _ = b.Instrs[len(b.Instrs)-1].(*ssa.If)
 		}
 		for i, sc := range b.Succs {
+			if only >= 0 && i != only {
+				continue
+			}
 			out := cur
 			if iff != nil && (f.Branch != nil || f.Tags) {
 				out = 0
@@ -598,14 +636,65 @@ func (f *Flow) runFn(fn *ssa.Function, entry StateSet, depth int) StateSet {
 					}
 				}
 			}
-			old := in[sc]
-			if old|out != old {
+			changed := false
+			if old := in[sc]; old|out != old {
 				in[sc] = old | out
-				if !inWork[sc] {
-					inWork[sc] = true
-					work = append(work, sc)
+				changed = true
+			}
+			if tp, _ := threadPhi(sc); tp != nil {
+				// remember which predecessor edge the states came in on
+				j := -1
+				seen := 0
+				for k, pb := range sc.Preds {
+					if pb == b {
+						if seen == i || j < 0 {
+							j = k
+						}
+						seen++
+					}
+				}
+				if inBy[sc] == nil {
+					inBy[sc] = map[int]StateSet{}
+				}
+				if old := inBy[sc][j]; old|out != old {
+					inBy[sc][j] = old | out
+					changed = true
 				}
 			}
+			if changed && !inWork[sc] {
+				inWork[sc] = true
+				work = append(work, sc)
+			}
+		}
+	}
+	for len(work) > 0 {
+		b := work[0]
+		work = work[1:]
+		inWork[b] = false
+		phi, neg := threadPhi(b)
+		if phi == nil || len(inBy[b]) == 0 {
+			cur := runInstrs(b, in[b])
+			propagate(b, cur, -1)
+			continue
+		}
+		// one pass per predecessor edge: the constant fed into the phi decides the branch
+		for j, st := range inBy[b] {
+			if st.Empty() {
+				continue
+			}
+			cur := runInstrs(b, st)
+			only := -1
+			if j >= 0 && j < len(phi.Edges) {
+				if k, ok := phi.Edges[j].(*ssa.Const); ok && k.Value != nil && k.Value.Kind() == constant.Bool {
+					truth := constant.BoolVal(k.Value) != neg
+					if truth {
+						only = 0
+					} else {
+						only = 1
+					}
+				}
+			}
+			propagate(b, cur, only)
 		}
 	}
 	for b, s := range in {
